@@ -38,10 +38,12 @@ type Interp struct {
 	// selfEvents: build-stack operations and hand-offs (stores, callback calls, channel sends of a
 	// build-stack element) are recorded as events (chunk-independence comparison of a machine with itself)
 	selfEvents  bool
-	recvName    string          // name of the receiver variable in the dispatch function
-	nilTested   map[string]bool // untracked nilable receiver fields nil-tested by the dispatch function or what it calls
-	trackReads  bool            // record reads-before-write of tracked fields (liveness sampling)
-	noScratch   bool            // scratch-buffer typestate is not followed (decided by the exploration of the machine alone)
+	recvName    string               // name of the receiver variable in the dispatch function
+	nilTested   map[string]bool      // untracked nilable receiver fields nil-tested by the dispatch function or what it calls
+	mirror      bool                 // N-mirror: follow whether the dispatched byte is added to the number's text buffer
+	mirrorFns   map[*types.Func]bool // methods of the number accumulator that add their byte argument to the text buffer when it is in use
+	trackReads  bool                 // record reads-before-write of tracked fields (liveness sampling)
+	noScratch   bool                 // scratch-buffer typestate is not followed (decided by the exploration of the machine alone)
 	undecided   []string
 	maxDepth    int
 	hook        *workCollector
@@ -389,6 +391,7 @@ func (in *Interp) execAssign(s *ast.AssignStmt, st *State) []Exit {
 					continue
 				}
 				in.noteKeyPush(l, s.Rhs[i], s2)
+				in.noteMirror(l, s.Rhs[i], s2)
 				in.buildAssign(l, s.Rhs[i], s2)
 				if in.selfEvents && in.isBuildElem(s.Rhs[i], s2) {
 					if f := in.fieldPath(l, s2); f != "" {
@@ -1259,7 +1262,7 @@ func (in *Interp) cond(e ast.Expr, st *State) []condRes {
 			r.st.readStale = append(r.st.readStale, in.prog.Pos(e.Pos())+" condition")
 		}
 		t, f := r.st.clone(), r.st
-		if in.selfEvents {
+		if in.selfEvents || in.mirror {
 			pos := in.condKey(e)
 			t.decisions = append(append([]string{}, t.decisions...), pos+"=1")
 			f.decisions = append(append([]string{}, f.decisions...), pos+"=0")
@@ -1327,7 +1330,7 @@ func (in *Interp) compare(op token.Token, l, r Val, st *State, at ast.Expr) []co
 			st.readStale = append(st.readStale, in.prog.Pos(at.Pos())+" comparison")
 		}
 		t, f := st.clone(), st
-		if in.selfEvents {
+		if in.selfEvents || in.mirror {
 			pos := in.condKey(at)
 			t.decisions = append(append([]string{}, t.decisions...), pos+"=1")
 			f.decisions = append(append([]string{}, f.decisions...), pos+"=0")
@@ -1804,4 +1807,40 @@ func (in *Interp) condKey(e ast.Expr) string {
 		s = strings.ReplaceAll(s, in.recvName+".", "recv.")
 	}
 	return s
+}
+
+// noteMirror: `X.BigBuf = append(X.BigBuf, b)` with b the dispatched byte.
+func (in *Interp) noteMirror(lhs, rhs ast.Expr, st *State) {
+	if !in.mirror || st.cur < 0 {
+		return
+	}
+	f := in.fieldPath(lhs, st)
+	if !strings.HasSuffix(f, ".BigBuf") {
+		return
+	}
+	call, ok := rhs.(*ast.CallExpr)
+	if !ok || len(call.Args) != 2 || call.Ellipsis.IsValid() {
+		return
+	}
+	if id, ok := call.Fun.(*ast.Ident); !ok || id.Name != "append" || in.fieldPath(call.Args[0], st) != f {
+		return
+	}
+	if in.isDispatchedByte(call.Args[1], st) {
+		st.mirrored = true
+	}
+}
+
+// isDispatchedByte: e evaluates to the byte being dispatched (the loop variable, not a constant).
+func (in *Interp) isDispatchedByte(e ast.Expr, st *State) bool {
+	id, ok := ast.Unparen(e).(*ast.Ident)
+	if !ok {
+		return false
+	}
+	obj := in.info.Uses[id]
+	v, ok := st.locals[obj]
+	if !ok {
+		return false
+	}
+	bv, isInt := v.isInt()
+	return isInt && v.FromB && int(bv) == st.cur
 }
